@@ -761,9 +761,9 @@ def _run_all(run, with_model):
 
     out = []
     run_probes(run, out)
-    plan = [(run_histories, 500 if thorough else 60, 12), (run_nearmiss, 2000 if thorough else 200, None),
-            (run_scripted, 6000 if thorough else 800, None), (run_invoke, 1500 if thorough else 150, None),
-            (run_http, 120 if thorough else 24, None), (run_optional, 60 if thorough else 8, None)]
+    plan = [(run_histories, 350 if thorough else 60, 12), (run_nearmiss, 1200 if thorough else 200, None),
+            (run_scripted, 4000 if thorough else 800, None), (run_invoke, 1000 if thorough else 150, None),
+            (run_http, 80 if thorough else 24, None), (run_optional, 40 if thorough else 8, None)]
     for fn, total, extra in plan:
         chunk = 100 if fn in (run_histories, run_http, run_optional) else 1000
         done = 0
